@@ -278,6 +278,7 @@ class Sim:
         self.live_hook = None
         self.atomic_tid = None    # thread whose scheduling points are suspended
         self.atomic_breaks = 0
+        self.finished = False
         self.park_requests = {}
         self.stall_requests = {}
         self.stalls = 0
@@ -785,4 +786,12 @@ class Sim:
             self._done_lock.acquire()
         finally:
             _CURRENT = None
+            self.finished = True
         return self.failure
+
+    @property
+    def unwinding(self):
+        """True while the threads of an aborted run (deadlock, step budget,
+        divergence) are being unwound: library code still executes then, but
+        nothing it does is part of the explored execution."""
+        return self.aborting and not self.finished
